@@ -107,6 +107,11 @@ def build(cfg, conditions=None):
         conds = conditions if conditions is not None else cfg.get("conditions", [])
         if cfg["cls"] == "Filter":
             d = {c: PALETTE[v] for c, v in conds}
+        elif cfg["cls"] in ("FilterIn", "FilterNotIn"):
+            # the collection of admitted values, in any of the container types a caller may hold it in
+            box = {"list": list, "tuple": tuple, "set": set, "frozenset": frozenset,
+                   "ndarray": lambda v: np.asarray(list(v), dtype=float)}[cfg.get("container", "list")]
+            d = {c: box(v) for c, v in conds}
         else:
             d = {c: v for c, v in conds}
         return cls(d, ignore_missing_criteria=cfg.get("ignore_missing", False))
